@@ -416,6 +416,17 @@ func main() {
 		"After every call: result, callback log, Len, Size, and through the hook the heap array, the key->offset map and the clock. "+
 		"A case is non-trivial when it evicts or performs a Put/Get/Remove after a Remove; distinct = distinct input lines.",
 		exec, func(g *tr.G) {
+			if g.Prop == "C09" {
+				// the sequential object of the linearizability claim: a smaller random sample
+				for i := 0; i < g.Scale(2000, 40000); i++ {
+					sh := shape{limit: int64(g.R.Range(1, 8)), nkeys: g.R.Range(2, 6), n: g.R.Range(5, 40), mode: "u", maxval: 99}
+					if g.R.Bool() {
+						sh.mode = "m" + strconv.Itoa(g.R.Range(1, int(sh.limit)+2))
+					}
+					emit(g, sh.limit, sh.mode, genHistory(g.R, sh))
+				}
+				return
+			}
 			// exhaustive small scope
 			alpha := []op{{kind: 'p', key: 0, val: 1}, {kind: 'p', key: 1, val: 2}, {kind: 'p', key: 0, val: 3}, {kind: 'g', key: 0}, {kind: 'g', key: 1},
 				{kind: 'r', key: 0}, {kind: 'r', key: 1}, {kind: 'h', key: 1}, {kind: 'c'}}
